@@ -416,3 +416,105 @@ Proof.
   unfold value, step. destruct (hget root h) as [ob|]; [|discriminate].
   destruct (is_feature sch (o_type ob) name); [|discriminate]. intros H. injection H as <-. reflexivity.
 Qed.
+
+(* ---------------------------------------------------------------- a type system that grows *)
+
+(* create_feature only adds names: every (type, name) that was a feature still is one.  A path that
+   resolved before resolves to the same value afterwards (same heap), and an assignment that succeeded
+   before does the same assignment afterwards; what get/set do depends on the type system only through
+   the feature relation of the moment of the call (no memory of earlier lookups). *)
+Definition sch_le (s s' : schema) : Prop :=
+  forall t f, is_feature s t f = true -> is_feature s' t f = true.
+
+Lemma step_schema_mono s s' h cur f :
+  sch_le s s' -> step s h cur f <> VNone -> step s' h cur f = step s h cur f.
+Proof.
+  intros Hle. unfold step. destruct cur as [| |o]; try reflexivity.
+  destruct (hget o h) as [ob|]; [|reflexivity].
+  destruct (is_feature s (o_type ob) f) eqn:E.
+  - rewrite (Hle _ _ E). reflexivity.
+  - intros H. exfalso. apply H. reflexivity.
+Qed.
+
+Lemma walk_schema_mono s s' h segs : forall cur,
+  sch_le s s' -> walk s h cur segs <> VNone -> walk s' h cur segs = walk s h cur segs.
+Proof.
+  induction segs as [|a r IH]; intros cur Hle H; [reflexivity|].
+  cbn [walk] in *.
+  destruct (step s h cur a) eqn:E.
+  - exfalso. apply H. reflexivity.
+  - rewrite (step_schema_mono s s' h cur a Hle) by (rewrite E; discriminate).
+    rewrite E. apply IH; assumption.
+  - rewrite (step_schema_mono s s' h cur a Hle) by (rewrite E; discriminate).
+    rewrite E. apply IH; assumption.
+Qed.
+
+Theorem get_schema_mono s s' h root path :
+  sch_le s s' -> get s h root path <> VNone -> get s' h root path = get s h root path.
+Proof. unfold get. apply walk_schema_mono. Qed.
+
+Lemma assign_schema_mono s s' h tgt name v h' :
+  sch_le s s' -> assign s h tgt name v = (h', None) -> assign s' h tgt name v = (h', None).
+Proof.
+  intros Hle. unfold assign. destruct tgt as [| |o]; try discriminate.
+  destruct (hget o h) as [ob|]; [|discriminate].
+  destruct (is_feature s (o_type ob) name) eqn:E; [|discriminate].
+  rewrite (Hle _ _ E). exact (fun H => H).
+Qed.
+
+Theorem set_schema_mono s s' h root path v h' :
+  sch_le s s' -> set s h root path v = (h', None) -> set s' h root path v = (h', None).
+Proof.
+  intros Hle. unfold set. destruct (rsplit path) as [[p l]|].
+  - intros H. destruct (get s h root p) eqn:E.
+    + cbn in H. discriminate.
+    + cbn in H. discriminate.
+    + rewrite (get_schema_mono s s' h root p Hle) by (rewrite E; discriminate).
+      rewrite E. exact (assign_schema_mono s s' h _ l v h' Hle H).
+  - apply assign_schema_mono. exact Hle.
+Qed.
+
+(* the feature relation is all that matters: two schemas with the same relation give the same get and set *)
+Theorem get_set_schema_ext s s' h root path v :
+  (forall t f, is_feature s t f = is_feature s' t f) ->
+  get s h root path = get s' h root path /\ set s h root path v = set s' h root path v.
+Proof.
+  intros Heq.
+  assert (Hstep : forall cur f, step s h cur f = step s' h cur f).
+  { intros cur f. unfold step. destruct cur as [| |o]; try reflexivity.
+    destruct (hget o h) as [ob|]; [|reflexivity]. rewrite Heq. reflexivity. }
+  assert (Hwalk : forall segs cur, walk s h cur segs = walk s' h cur segs).
+  { induction segs as [|a r IH]; intros cur; [reflexivity|]. cbn [walk]. rewrite Hstep.
+    destruct (step s' h cur a); [reflexivity| apply IH | apply IH]. }
+  assert (Hget : forall p, get s h root p = get s' h root p) by (intros p; apply Hwalk).
+  assert (Hass : forall tgt name, assign s h tgt name v = assign s' h tgt name v).
+  { intros tgt name. unfold assign. destruct tgt as [| |o]; try reflexivity.
+    destruct (hget o h) as [ob|]; [|reflexivity]. rewrite Heq. reflexivity. }
+  split; [apply Hget|]. unfold set. destruct (rsplit path) as [[p l]|]; [rewrite Hget|]; apply Hass.
+Qed.
+
+(* a name added later is read as a feature from then on: before, any path through it is None and any set
+   ending in it raises; afterwards the single step reads the slot *)
+Theorem late_feature_visible s s' h o ob f :
+  hget o h = Some ob -> is_feature s (o_type ob) f = false -> is_feature s' (o_type ob) f = true ->
+  step s h (VRef o) f = VNone /\ snd (assign s h (VRef o) f (slot ob f)) = Some EAttribute /\
+  step s' h (VRef o) f = slot ob f /\ forall v, snd (assign s' h (VRef o) f v) = None.
+Proof.
+  intros Hg H0 H1. unfold step, assign. rewrite Hg, H0, H1. repeat split.
+Qed.
+
+Lemma alookup_In {V} k (l : list (string * V)) v : alookup k l = Some v -> In (k, v) l.
+Proof.
+  induction l as [|[k' v'] r IH]; cbn [alookup]; [discriminate|].
+  destruct (String.eqb k k') eqn:E.
+  - intros H. injection H as <-. apply String.eqb_eq in E. subst. left. reflexivity.
+  - intros H. right. apply IH. exact H.
+Qed.
+
+Theorem sch_leb_sound s s' : sch_leb s s' = true -> sch_le s s'.
+Proof.
+  unfold sch_leb, sch_le. intros H t f Hf. rewrite forallb_forall in H.
+  unfold is_feature in Hf. destruct (alookup t s) as [fs|] eqn:E; [|discriminate].
+  specialize (H (t, fs) (alookup_In _ _ _ E)). cbn [fst snd] in H.
+  rewrite forallb_forall in H. apply H. apply memb_In. exact Hf.
+Qed.
